@@ -169,3 +169,39 @@ func TestProbe_LateCheckIn(t *testing.T) {
 	}
 	t.Logf("step errors: %v", r.stepErrors)
 }
+
+func TestProbe_Overlap(t *testing.T) {
+	if os.Getenv("VERIF_PROBE") == "" {
+		t.Skip("development probe")
+	}
+	ctx := context.Background()
+	for _, at := range []int{0, 4, 10, 18} {
+		sc := Scenario{N: 3, T: 2, L: 8, Order: []int{0, 1, 2}, Byz: map[int]ByzStrategy{}, Fair: true, Overlap: &overlapSpec{At: at, Rot: 1}}
+		r, err := newRun(ctx, sc, fixedChooser{})
+		if err != nil {
+			t.Fatal(err)
+		}
+		r.plainSchedule = true
+		t0 := time.Now()
+		if err := r.execute(); err != nil {
+			t.Fatalf("%v\n%s", err, r.history())
+		}
+		f := func(sig, f string, a ...any) { t.Errorf("FAIL %s: "+f, append([]any{sig}, a...)...) }
+		st, _ := r.checkAgreement(f, true)
+		t.Logf("at=%d eon1: %+v h0=%d h1=%d eon2=%d height=%d took %v", at, st, r.h0, r.h1, r.eon2, r.chain.Height(), time.Since(t0))
+		if r.h1 != 0 {
+			r.switchToSecondEon()
+			st2, _ := r.checkAgreement(f, true)
+			t.Logf("eon2: %+v", st2)
+		}
+		if at == 0 {
+			for _, tx := range r.chain.AllTxs {
+				if tx.Height >= r.h1 {
+					t.Logf("h=%d %s code=%d %s", tx.Height, tx.Origin, tx.Code, msgKind(tx))
+				}
+			}
+		}
+		t.Logf("step errors %v", r.stepErrors)
+		r.close()
+	}
+}
